@@ -50,6 +50,16 @@ type WS struct {
 	DryRun    bool     `json:"dry_run"`
 	NoForce   bool     `json:"no_force"` // C14: run without --force
 	Git       *GitSpec `json:"git,omitempty"`
+	// Via: how the invocation reaches the workspace.  "" = by its real path.  Otherwise the workspace is materialised
+	// next to a symbolic link, and the working directory and every argument are spelled through that link (as a
+	// shell that was cd'ed through the link would: PWD is the spelled path):
+	//   "link"         <base>/link -> real (relative target); the workspace root is <base>/link, i.e. the root itself
+	//                  (an argument "" names the link itself)
+	//   "link-parent"  <base>/link -> <base>/real (absolute target); the workspace root is <base>/link/mid: a parent
+	//                  directory of everything is the link
+	Via string `json:"via,omitempty"`
+	// Symlinks inside the workspace: path -> target (as given to symlink(2): relative to the link's directory, or absolute)
+	Symlinks map[string]string `json:"symlinks,omitempty"`
 }
 
 func Content(f WFile) string {
@@ -66,6 +76,7 @@ type Snap struct {
 }
 
 // Snapshot lists the tree; the inside of .git directories is not part of it (the .git entry itself is).
+// Symbolic links are not followed: a link is listed as a file whose content names its target.
 func Snapshot(root string) Snap {
 	s := Snap{Files: map[string]string{}, Dirs: []string{}}
 	filepath.Walk(root, func(p string, info os.FileInfo, err error) error {
@@ -83,6 +94,9 @@ func Snapshot(root string) Snap {
 			}
 		} else if info.Name() == ".git" {
 			s.Files[rel] = "gitfile\n"
+		} else if info.Mode()&os.ModeSymlink != 0 {
+			t, _ := os.Readlink(p)
+			s.Files[rel] = "symlink -> " + t + "\n"
 		} else {
 			b, _ := os.ReadFile(p)
 			s.Files[rel] = string(b)
@@ -148,6 +162,15 @@ func Materialise(ws *WS, root string) {
 	}
 	for _, o := range ws.Others {
 		write(o, "other "+o+"\n")
+	}
+	links := make([]string, 0, len(ws.Symlinks))
+	for l := range ws.Symlinks {
+		links = append(links, l)
+	}
+	sort.Strings(links)
+	for _, l := range links { // before the repositories are committed: the links are tracked
+		must(os.MkdirAll(filepath.Dir(filepath.Join(root, l)), 0o755))
+		must(os.Symlink(ws.Symlinks[l], filepath.Join(root, l)))
 	}
 	for _, d := range ws.RegalDirs {
 		must(os.MkdirAll(filepath.Join(root, d, ".regal"), 0o755))
@@ -225,7 +248,9 @@ func Materialise(ws *WS, root string) {
 type Prepared struct {
 	Idx        int             `json:"idx"`
 	WS         *WS             `json:"ws"`
-	Root       string          `json:"root"`
+	Root       string          `json:"root"`     // the workspace root as the invocation spells it (through the link, with ws.Via)
+	Real       string          `json:"real"`     // the same directory without symbolic links
+	Base       string          `json:"base"`     // the directory created for this workspace (removed after the run)
 	Cwd        string          `json:"cwd"`      // absolute
 	Args       []string        `json:"args"`     // as they will be spelled on the command line
 	AbsArgs    []string        `json:"abs_args"` // the same, absolute
@@ -237,13 +262,31 @@ type Prepared struct {
 }
 
 func Prepare(ws *WS, workdir string, idx int) *Prepared {
-	root := filepath.Join(workdir, "w"+strconv.Itoa(idx))
-	os.RemoveAll(root)
-	Materialise(ws, root)
-	real, _ := filepath.EvalSymlinks(root)
-	root = real
-	p := &Prepared{Idx: idx, WS: ws, Root: root, Restorable: map[string]bool{}}
-	p.Before = Snapshot(root)
+	base := filepath.Join(workdir, "w"+strconv.Itoa(idx))
+	os.RemoveAll(base)
+	must(os.MkdirAll(base, 0o755))
+	if r, err := filepath.EvalSymlinks(base); err == nil {
+		base = r
+	}
+	root, real := base, base
+	switch ws.Via {
+	case "":
+	case "link":
+		root, real = filepath.Join(base, "link"), filepath.Join(base, "real")
+	case "link-parent":
+		root, real = filepath.Join(base, "link", "mid"), filepath.Join(base, "real", "mid")
+	default:
+		panic("unknown via: " + ws.Via)
+	}
+	Materialise(ws, real)
+	switch ws.Via {
+	case "link":
+		must(os.Symlink("real", filepath.Join(base, "link")))
+	case "link-parent":
+		must(os.Symlink(filepath.Join(base, "real"), filepath.Join(base, "link")))
+	}
+	p := &Prepared{Idx: idx, WS: ws, Root: root, Real: real, Base: base, Restorable: map[string]bool{}}
+	p.Before = Snapshot(real)
 	p.Cwd = filepath.Join(root, ws.Cwd)
 	for _, a := range ws.Args {
 		ap := filepath.Join(root, a)
@@ -273,8 +316,8 @@ func Prepare(ws *WS, workdir string, idx int) *Prepared {
 	sort.Strings(p.Roots)
 	if ws.Git != nil {
 		for _, rd := range ws.Git.RepoDirs {
-			rp := filepath.Join(root, rd)
-			p.Repos = append(p.Repos, rp)
+			rp := filepath.Join(real, rd)
+			p.Repos = append(p.Repos, filepath.Join(root, rd)) // as the invocation spells them
 			p.Porcelain = append(p.Porcelain, rd+": "+strings.ReplaceAll(strings.TrimSpace(git(rp, "status", "--porcelain", "--ignored")), "\n", " | "))
 		}
 		for rel, txt := range p.Before.Files {
@@ -283,8 +326,8 @@ func Prepare(ws *WS, workdir string, idx int) *Prepared {
 				p.Restorable[rel] = false
 				continue
 			}
-			rp := filepath.Join(root, rd)
-			inrepo, _ := filepath.Rel(rp, filepath.Join(root, rel))
+			rp := filepath.Join(real, rd)
+			inrepo, _ := filepath.Rel(rp, filepath.Join(real, rel))
 			cmd := exec.Command("git", "show", "HEAD:"+inrepo)
 			cmd.Dir = rp
 			out, err := cmd.Output()
@@ -313,13 +356,27 @@ type Result struct {
 
 // Execute runs the binary once and removes the workspace.
 func (p *Prepared) Execute(regal string) Result {
-	ws, root := p.WS, p.Root
+	ws, root, real, base := p.WS, p.Root, p.Real, p.Base
+	if real == "" {
+		real = root
+	}
+	if base == "" {
+		base = root
+	}
+	// spelled paths become /R..., resolved ones (only a program that resolves links prints them) /R.real...
+	norm := func(s string) string {
+		s = strings.ReplaceAll(s, root, "/R")
+		if real != root {
+			s = strings.ReplaceAll(s, real, "/R.real")
+		}
+		return s
+	}
 	res := Result{Kind: "ws", WS: ws, Roots: p.Roots, Before: p.Before, Cwd: ws.Cwd, Restorable: p.Restorable, Porcelain: p.Porcelain}
 	for _, a := range p.Args {
-		res.Args = append(res.Args, strings.Replace(a, root, "/R", 1))
+		res.Args = append(res.Args, norm(a))
 	}
 	for _, r := range p.Repos {
-		res.Repos = append(res.Repos, strings.Replace(r, root, "/R", 1))
+		res.Repos = append(res.Repos, norm(r))
 	}
 	cmdArgs := []string{"fix"}
 	if !ws.NoForce {
@@ -341,8 +398,10 @@ func (p *Prepared) Execute(regal string) Result {
 	defer cancel()
 	cmd := exec.CommandContext(cctx, regal, cmdArgs...)
 	cmd.Dir = p.Cwd
+	// PWD as a shell sets it: the working directory as spelled (os.Getwd trusts it when it names the same directory)
+	cmd.Env = append(os.Environ(), "PWD="+p.Cwd)
 	if p.Idx%4 != 0 { // most runs with two OS threads (cheaper when many run at once), every fourth with the default
-		cmd.Env = append(os.Environ(), "GOMAXPROCS=2")
+		cmd.Env = append(cmd.Env, "GOMAXPROCS=2")
 	}
 	var so, se bytes.Buffer
 	cmd.Stdout, cmd.Stderr = &so, &se
@@ -358,10 +417,10 @@ func (p *Prepared) Execute(regal string) Result {
 		res.Exit = -2
 		se.WriteString("\nverif: killed after 90s without an answer")
 	}
-	res.Stderr = strings.ReplaceAll(trunc(se.String()), root, "/R")
-	res.Stdout = strings.ReplaceAll(trunc(so.String()), root, "/R")
-	res.After = Snapshot(root)
-	os.RemoveAll(root)
+	res.Stderr = norm(trunc(se.String()))
+	res.Stdout = norm(trunc(so.String()))
+	res.After = Snapshot(real)
+	os.RemoveAll(base)
 	return res
 }
 
